@@ -1014,3 +1014,40 @@ def flat_expansion(ctx: Ctx, rule: str) -> None:
                and ast.unparse(f2.node.body[-1]) == "return (get_nodes, parse_nodes)")
     ctx.record(rule + "p", "COUNT", GAPF, "each freshly parsed node is replaced by its already parsed equals (a clone source by its clones, no duplicates) or reported as new: none dropped, none doubled",
                ok6, {"nodes_to_add": d2.get("nodes_to_add")}, "" if ok6 else "freshly parsed nodes of a flat expansion are lost or duplicated against the already parsed ones")
+
+
+# ---------------------------------------------------------------------- lazy/eager agreement details found by defect hunting
+def lazy_eager_details(ctx: Ctx, rule: str) -> None:
+    """Two places where lazy and eager parsing can disagree about which tests a worker gets."""
+    # (q) the shortcut "one child already expanded -> nothing more to parse" is sound only if at most one variant can exist
+    f2 = ctx.repo.func(GAPF)
+    ctx.touch(GAPF)
+    gb = [c for c in calls_in(f2.node) if call_name(c) == "get_boolean" and c.args and isinstance(c.args[0], ast.Constant) and c.args[0].value == "unique_nodes_from_flat"]
+    if len(gb) != 1 or len(gb[0].args) != 2:
+        raise AnalysisError(f"{GAPF}: the unique_nodes_from_flat switch was not found")
+    default = gb[0].args[1]
+    sound = isinstance(default, ast.Constant) and default.value is False
+    if not sound and isinstance(default, ast.Name):
+        # accepted: a default that was established by counting the selectable variants (some `len(<variants>) > 1 / == 1` test feeds it)
+        feeds = [s_ for s_ in ast.walk(f2.node) if isinstance(s_, ast.Assign) and ast.unparse(s_.targets[0]) == default.id]
+        counted = [i for i in ast.walk(f2.node) if isinstance(i, ast.If) and any(x in feeds for x in ast.walk(i))
+                   and any(isinstance(c, ast.Compare) and isinstance(c.left, ast.Call) and call_name(c.left) == "len" and "variant" in ast.unparse(c.left) for c in ast.walk(i.test))]
+        sound = bool(counted)
+    ctx.record(rule + "q", "GUARD", GAPF, "unique_new_node default derived from non-empty restrictions", sound,
+               {"default": ast.unparse(default)},
+               "" if sound else "the 'single already expanded child, nothing more to parse' shortcut is enabled whenever every vm restriction is non-empty, but a non-empty restriction "
+               "(only CentOS,Fedora) still selects several variants: a variant one worker already created as somebody's setup hides the other selected variants from the lazy expansion")
+    # (v) eager parse: a vm without a compatible variant on a net must only exclude the tests that use it
+    fref = f"{G}.parse_components_for_object"
+    f = ctx.repo.func(fref)
+    ctx.touch(fref)
+    calls = [c for c in calls_in(f.node) if call_name(c) == "parse_composite_objects"]
+    guarded = []
+    for c in calls:
+        t = [t_ for t_ in ast.walk(f.node) if isinstance(t_, ast.Try) and any(c is x for s_ in t_.body for x in ast.walk(s_))
+             and any(h.type is not None and ast.unparse(h.type).endswith("EmptyCartesianProduct") and isinstance(h.body[-1], ast.Continue) for h in t_.handlers)]
+        guarded.append(bool(t))
+    ok = bool(calls) and all(guarded)
+    ctx.record(rule + "v", "TABLE", fref, "per-vm parse_composite_objects of a net's components", ok, {"calls": len(calls), "guarded": guarded},
+               "" if ok else "the eager parse of a worker's objects lets the empty product of ONE vm (even one no selected test uses) escape: the worker loses all its tests, "
+               "while lazy parsing drops only the tests that use that vm")
